@@ -32,7 +32,7 @@ Print Assumptions C01_qtm_bufsize_independent.
 (* ---- the container: Model/Cab.v, the executable model of cabd_open / cabd_extract for one cabinet (run against the C library
    on intact and damaged cabinets by tools/props/C01.py) ---- *)
 From Coq Require Import ZArith.
-From MSP Require Import Gen.Consts Model.Cab Proofs.Sim Proofs.CabP Props.CabSample.
+From MSP Require Import Gen.Consts Model.Cab Proofs.Sim Proofs.CabP Proofs.CabHdrP Props.CabSample.
 
 (* cabd_sys_read on a folder whose data area holds well-formed CFDATA blocks (checksum absent or right, sizes within limits,
    per-block reserve skipped): every call delivers the next bytes of the concatenated payloads (plus Quantum's trailer byte),
@@ -66,6 +66,19 @@ Theorem C01_stored_member_exact : forall file par cab, 0 < p_bufsize par -> fora
               (MSPACK_ERR_OK, firstn (N.to_nat (fi_len f)) (skipn (N.to_nat (fi_off f)) (pays (fo_comp fo) bs)), st').
 Proof. exact stored_extract. Qed.
 Print Assumptions C01_stored_member_exact.
+
+(* open(): a cabinet without reserve areas and neighbours lists exactly the folders and files its writer encoded - any number of
+   folders and files, any sizes / offsets / attributes / dates, names of 1..255 bytes without NUL, folder indices valid or one of
+   the three CONTINUED codes (which mark the first / last folder for merging) - in strict and in salvage mode *)
+Theorem C01_open_lists_what_was_written : forall salvage r1 cablen r2 foff r3 minor major setid idx fos fis rest,
+  fos <> [] -> fis <> [] -> N.of_nat (length fos) < 65536 -> N.of_nat (length fis) < 65536 ->
+  Forall (fun s => Chm.len (fs_resv s) = 0) fos -> Forall (wf_fi (N.of_nat (length fos))) fis ->
+  read_headers (enc_cfheader r1 cablen r2 foff r3 minor major (N.of_nat (length fos)) (N.of_nat (length fis)) 0 setid idx
+                ++ concat (map enc_fo fos) ++ concat (map enc_fi fis) ++ rest) 0 salvage =
+  (MSPACK_ERR_OK, Some (mkCab 0 cablen setid idx 0 0 0 None None None None
+                              (fold_left merge1 fis (map (dec_fo 0) fos)) (map (dec_fi (N.of_nat (length fos))) fis))).
+Proof. exact read_headers_plain. Qed.
+Print Assumptions C01_open_lists_what_was_written.
 
 (* non-vacuity: a cabinet built by the generator the checks use opens in the model and its uncompressed folder meets the hypotheses *)
 Example C01_sample_cabinet : exists cab fo f, cab_open sample_cab false = (MSPACK_ERR_OK, Some cab) /\
